@@ -60,7 +60,7 @@ def st_case(draw, tier):
         reqs = draw(
             st.lists(
                 st.tuples(
-                    st.integers(0, nengines - 1), st.sampled_from(["name", "name", "name", "leaf", "mat", "reseed", "idleaf"]), st.sampled_from(PREFIXES)
+                    st.integers(0, nengines - 1), st.sampled_from(["name", "name", "name", "leaf", "mat", "reseed", "idleaf", "emptyleaf"]), st.sampled_from(PREFIXES)
                 ),
                 min_size=1,
                 max_size=4,
@@ -208,6 +208,19 @@ def request(engine, kind, what, prefix):
 
             t = sa.table("t", sa.column("a"))
             leaf = engine.make_leaf(set(), sql.Payload(t), min_rows=1, max_rows=1, name_prefix=prefix)
+        for n in lib_nodes(leaf):
+            if isinstance(n, LeafRelation):
+                return n.name
+        raise AssertionError("no leaf")
+    if what == "emptyleaf":
+        # a leaf without rows is still a new leaf that gets a generated name with the requested prefix
+        if kind == "it":
+            leaf = engine.make_leaf({A}, iteration.RowSequence([]), name_prefix=prefix)
+        else:
+            import sqlalchemy as sa
+
+            t = sa.table("t", sa.column("a"))
+            leaf = engine.make_leaf({A}, sql.Payload(t, columns_available={A: t.c.a}), min_rows=0, max_rows=0, name_prefix=prefix)
         for n in lib_nodes(leaf):
             if isinstance(n, LeafRelation):
                 return n.name
